@@ -19,40 +19,40 @@ import (
 )
 
 type cornerObs struct {
-	Ev     string `json:"ev"`
-	Id     int    `json:"id"`
-	Cls    string `json:"cls"`    // "fit" | "unfit" | "amb" (within 1e-6 of the fit boundary: not judged)
-	Kind   string `json:"kind"`   // "smooth" | "chamfer"
-	Theta  int64  `json:"theta"`  // corner angle, micro-degrees
-	Turn   int    `json:"turn"`   // +1 left turn, -1 right turn
-	F      int    `json:"f"`
-	Panic  bool   `json:"panic"`
-	N      int    `json:"n"`      // output vertices (3 input vertices, open polyline)
-	NaN    int    `json:"nan"`
-	Ends   int64  `json:"ends"`   // max distance first/last fillet point to the tangent points / scale * 1e12
-	Circ   int64  `json:"circ"`   // max | |p - c| - r | / scale * 1e12
-	Ctr    int64  `json:"ctr"`    // | dist(c, edge line) - r | / scale * 1e12 (harness self check)
-	Keep   int64  `json:"keep"`   // max displacement of the untouched vertices / scale * 1e12
-	Mono   bool   `json:"mono"`   // fillet points in strictly increasing angular order from t0 to t1
-	Side   bool   `json:"side"`   // all fillet points inside the corner wedge
-	Param  [7]float64 `json:"param"` // ax ay vx vy bx by r (for the report)
+	Ev    string     `json:"ev"`
+	Id    int        `json:"id"`
+	Cls   string     `json:"cls"`   // "fit" | "unfit" | "amb" (within 1e-6 of the fit boundary: not judged)
+	Kind  string     `json:"kind"`  // "smooth" | "chamfer"
+	Theta int64      `json:"theta"` // corner angle, micro-degrees
+	Turn  int        `json:"turn"`  // +1 left turn, -1 right turn
+	F     int        `json:"f"`
+	Panic bool       `json:"panic"`
+	N     int        `json:"n"` // output vertices (3 input vertices, open polyline)
+	NaN   int        `json:"nan"`
+	Ends  int64      `json:"ends"`  // max distance first/last fillet point to the tangent points / scale * 1e12
+	Circ  int64      `json:"circ"`  // max | |p - c| - r | / scale * 1e12
+	Ctr   int64      `json:"ctr"`   // | dist(c, edge line) - r | / scale * 1e12 (harness self check)
+	Keep  int64      `json:"keep"`  // max displacement of the untouched vertices / scale * 1e12
+	Mono  bool       `json:"mono"`  // fillet points in strictly increasing angular order from t0 to t1
+	Side  bool       `json:"side"`  // all fillet points inside the corner wedge
+	Param [7]float64 `json:"param"` // ax ay vx vy bx by r (for the report)
 }
 
 type arcObs struct {
-	Ev    string `json:"ev"`
-	Id    int    `json:"id"`
-	Semi  bool   `json:"semi"`  // radius = half the chord (computed in floating point)
-	Feas  bool   `json:"feas"`  // 4 r^2 >= |b - a|^2 in EXACT arithmetic on the float inputs: a circle exists
-	SignR int    `json:"signr"`
-	F     int    `json:"f"`
-	Panic bool   `json:"panic"`
-	N     int    `json:"n"`
-	NaN   int    `json:"nan"`
-	Circ  int64  `json:"circ"`  // max | |p - c| - r | / scale * 1e12 for the better of the two centres
-	PSide int    `json:"pside"` // common side of the inserted points w.r.t. the chord a->b (0: mixed / on the chord)
-	CSide int    `json:"cside"` // side of that centre (0: on the chord)
-	Mono  bool   `json:"mono"`
-	Keep  int64  `json:"keep"`
+	Ev    string     `json:"ev"`
+	Id    int        `json:"id"`
+	Semi  bool       `json:"semi"` // radius = half the chord (computed in floating point)
+	Feas  bool       `json:"feas"` // 4 r^2 >= |b - a|^2 in EXACT arithmetic on the float inputs: a circle exists
+	SignR int        `json:"signr"`
+	F     int        `json:"f"`
+	Panic bool       `json:"panic"`
+	N     int        `json:"n"`
+	NaN   int        `json:"nan"`
+	Circ  int64      `json:"circ"`  // max | |p - c| - r | / scale * 1e12 for the better of the two centres
+	PSide int        `json:"pside"` // common side of the inserted points w.r.t. the chord a->b (0: mixed / on the chord)
+	CSide int        `json:"cside"` // side of that centre (0: on the chord)
+	Mono  bool       `json:"mono"`
+	Keep  int64      `json:"keep"`
 	Param [5]float64 `json:"param"` // ax ay bx by r
 }
 
@@ -60,9 +60,9 @@ type nagonObs struct {
 	Ev    string `json:"ev"`
 	NG    int    `json:"ng"`
 	N     int    `json:"n"`
-	Rad   int64  `json:"rad"`  // max | |v| - r | / r * 1e12
-	Edge  int64  `json:"edge"` // max | edge - 2 r sin(pi/n) | / r * 1e12
-	CCW   bool   `json:"ccw"`  // all turns the same way
+	Rad   int64  `json:"rad"`   // max | |v| - r | / r * 1e12
+	Edge  int64  `json:"edge"`  // max | edge - 2 r sin(pi/n) | / r * 1e12
+	CCW   bool   `json:"ccw"`   // all turns the same way
 	First int64  `json:"first"` // |v0 - (r,0)| / r * 1e12
 }
 
@@ -337,7 +337,7 @@ type bezObs struct {
 	Kind   string  `json:"kind"` // "lattice" (vector from BezierM) | "rand"
 	V      *bezVec `json:"v,omitempty"`
 	Id     int     `json:"id"`
-	Err    bool    `json:"err"`   // Polygon() returned an error
+	Err    bool    `json:"err"` // Polygon() returned an error
 	Panic  bool    `json:"panic"`
 	Spans  int     `json:"spans"`
 	MaxDeg int     `json:"maxdeg"`
@@ -552,10 +552,10 @@ func c17Bezier(args []string) error {
 		closed := rnd.Intn(3) == 0
 		ne := 2 + rnd.Intn(4)
 		type endp struct {
-			p          v2.Vec
-			fwd, rev   bool
+			p              v2.Vec
+			fwd, rev       bool
 			tf, rf, tr, rr float64
-			mids       []v2.Vec // explicit mid points after this end point
+			mids           []v2.Vec // explicit mid points after this end point
 		}
 		ends := make([]endp, ne)
 		sc := math.Exp(rnd.Float64()*6 - 3)
